@@ -625,6 +625,12 @@ def gen_case(seed: int, steps: int, mykind: int, cluster: int, mix: int) -> dict
             ops.append(["rmbad"])
         elif kind == 4:
             r = rng.random()
+            earlier = [o for o in ops if o[0] == "closest"]
+            if earlier and rng.random() < 0.3:
+                # the very same question again (same target, k and exclusion) - after whatever happened in between,
+                # e.g. nodes that went BAD without any table operation
+                ops.append(list(rng.choice(earlier[-6:])))
+                continue
             if r < 0.25 or not ids:
                 t = rng.getrandbits(160)
             elif r < 0.5:
